@@ -36,7 +36,7 @@ func unify(u, v *ast.SExpr, s Substitutions) (Substitutions, bool) {
 	if v.IsVariable() {
 		vv = walk(v.Atom.Var, s)
 	}
-	if uu.IsVariable() && vv.IsVariable() && uu.Atom.Var.Equal(uu.Atom.Var) {
+	if uu.IsVariable() && vv.IsVariable() && uu.Atom.Var.Equal(vv.Atom.Var) {
 		return s, true
 	}
 	if uu.IsVariable() {
